@@ -266,6 +266,50 @@ def r2_none_use(ctx):
                   f"`{var} = None` reaches `{U(x)}` (e.g. min_spacing_between_visits < 0.001 matches no rounding option): round(None) -> TypeError for an accepted design")
 
 
+def r2b_precision_table(ctx):
+    """'ages rounded to the documented precision': the table maps a number of decimals k to the spacing 10**-k, and the number of decimals
+    kept is the smallest k whose spacing does not exceed the requested minimal spacing (the finest one when none does)."""
+    from ..astq import Canon, unify
+    ctx.rule("C18.R2b", "precision table k -> 10**-k; first k (ascending) whose spacing <= min spacing, else the finest", 2)
+    f = ctx.ix.func(SIM, f"{CLS}._generate_dataset", "C18.R2b")
+    tables = [st for st in statements(f.node) if isinstance(st, ast.Assign) and isinstance(st.value, ast.Dict) and st.value.keys
+              and all(isinstance(k, ast.Constant) and isinstance(k.value, int) for k in st.value.keys) and all(isinstance(v, ast.Constant) and isinstance(v.value, (int, float)) for v in st.value.values)
+              and "round" in U(st.targets[0])]
+    if not tables:
+        return  # the table is gone: R2 decides what the rounding then uses
+    t = tables[0]
+    bad = [(k.value, v.value) for k, v in zip(t.value.keys, t.value.values) if abs(v.value - 10.0 ** (-k.value)) > 1e-12]
+    ctx.check(not bad, "C18.R2b", f, t, "k decimals <-> a spacing of 10**-k", f"the precision table maps {bad[0][0] if bad else ''} decimals to a spacing of {bad[0][1] if bad else ''} (10**-k expected): "
+              "ages are rounded more coarsely / finely than the minimal spacing asks for (distinct visits merged, or near-duplicates kept)", construct="precision table")
+    L = Canon(f.node).lines(False, True)
+    b = unify(L, ["?t = {...}", "?p = max(?t)", "for (sorted(?t.items()), (?k, ?v))", "?p = ?k", "?df.loc[:, 'TIME'] = ?df['TIME'].round(?p)"])
+    order_ok = b is not None and all(b[f"#{i}"] < b[f"#{i + 1}"] for i in range(4))
+    if not order_ok:
+        ctx.anchor(False, "C18.R2b", f, t, "", "selection of the rounding precision (first entry, in ascending order, whose spacing fits)", construct="precision selection")
+        return
+    # unique ages: rounding can make two ages of an individual equal - the duplicated (ID, TIME) rows are dropped afterwards
+    after = L[b["#4"] + 1:]
+    dedup = "; ".join(ln for ln in after if "duplicated" in ln or "drop_duplicates" in ln or "set_index" in ln)
+    ctx.form("C18.R2b", f, t, dedup, {f"{b['df']}.set_index(['ID', 'TIME'], inplace=True); return {b['df']}[~{b['df']}.index.duplicated()]"},
+             [("duplicated", "drop_duplicates")], "rows with a duplicated (ID, TIME) are dropped after the rounding",
+             "rows whose (ID, TIME) is duplicated after the rounding are no longer dropped: an individual can have two visits at the same age", construct="unique ages after rounding")
+    test = L[b["#2"] + 1]
+    import re as _re
+    m = _re.fullmatch(r"if (?P<a>\S+) (?P<op><=|<|>=|>|==|!=) (?P<b>\S+)", test)
+    spacing = f.node.args.args[-1].arg if f.node.args.args else None
+    ms = Canon(f.node).text(ast.Name(id=spacing, ctx=ast.Load()), False) if spacing else None
+    shape_ok = m is not None and b["#2"] + 2 == b["#3"] and L[b["#3"] + 1] == "break"
+    if shape_ok and {m.group("a"), m.group("b")} == {b["v"], ms}:
+        op = m.group("op") if m.group("a") == b["v"] else {"<=": ">=", "<": ">", ">=": "<=", ">": "<", "==": "==", "!=": "!="}[m.group("op")]
+        if op in ("<=", "<"):
+            ctx.ok("C18.R2b", f, t, f"smallest number of decimals whose spacing {op} min_spacing_between_visits (finest when none)", construct="precision selection")
+        else:
+            ctx.violation("C18.R2b", f, t, f"the number of decimals kept is the first one whose spacing is `{op}` the minimal spacing: ages are rounded more coarsely than the requested spacing "
+                          "(distinct visits of an individual collapse to one age and are dropped)", construct="precision selection")
+    else:
+        ctx.anchor(False, "C18.R2b", f, t, "", "selection of the rounding precision (first entry, in ascending order, whose spacing fits)", construct="precision selection")
+
+
 def r3_generation_after_validation(ctx):
     ctx.rule("C18.R3", "nothing drawn in the constructor; the model check dominates generation", 4)
     ix = ctx.ix
@@ -383,6 +427,25 @@ def r5_beta_domain(ctx):
         else:
             ok = mu == src_
     ctx.check(ok, "C18.R5", f, f.node, "shape parameters derive from the clipped means", "the Beta shape parameters no longer derive from the clipped noiseless values", construct="means feed the shape parameters")
+    # the variance handed to the parametrisation stays strictly below mu (1 - mu): otherwise mu (1 - mu) / v - 1 <= 0 and the Beta shape
+    # parameters are not positive (scipy returns NaN) - a valid design would not run to completion with finite values
+    if b_ is not None:
+        v_, mu_ = b_["v"], b_["mu"]
+        if _re.fullmatch(r"%\d+", v_):
+            vd = [ln[len(v_) + 3:] for ln in L if ln.startswith(v_ + " = ")]
+            v_ = vd[0] if len(vd) == 1 else v_
+        mm = _re.fullmatch(r"np\.minimum\((?P<var>.+?), (?P<c>[0-9.eE+-]+) \* \((?P<m1>.+?) \* \(1 - (?P<m2>.+?)\)\)\)", v_) or \
+            _re.fullmatch(r"np\.minimum\((?P<c>[0-9.eE+-]+) \* \((?P<m1>.+?) \* \(1 - (?P<m2>.+?)\)\), (?P<var>.+?)\)", v_)
+        if mm is None:
+            ctx.form("C18.R5", f, f.node, v_, set(), ["minimum", mu_ + " * (1 - " + mu_ + ")"], "variance capped below mu (1 - mu)",
+                     "the noise variance is no longer capped below mu (1 - mu) before the Beta parametrisation: a noise larger than the attainable variance gives non-positive shape parameters (NaN values)",
+                     construct="variance below mu(1-mu)")
+        else:
+            c_ = float(mm.group("c"))
+            same = mm.group("m1") == mu_ and mm.group("m2") == mu_
+            ctx.check(same and 0.0 < c_ < 1.0, "C18.R5", f, f.node, f"variance capped at {c_} * mu (1 - mu), strictly below the attainable maximum",
+                      f"the noise variance is capped at {c_} * mu (1 - mu)" + ("" if same else " (of another quantity than the mean)") + ": not strictly below the attainable maximum, so mu (1 - mu) / v - 1 "
+                      "can be <= 0 and the Beta shape parameters are not positive (NaN values, or an error from the sampler)", construct="variance below mu(1-mu)")
 
 
 def r6_at_least_one_visit(ctx):
@@ -488,6 +551,7 @@ def r7_options_reach_param_study(ctx):
 def rules(ctx):
     r1_validate_before_use(ctx)
     r2_none_use(ctx)
+    r2b_precision_table(ctx)
     r3_generation_after_validation(ctx)
     r4_progress(ctx)
     r5_beta_domain(ctx)
